@@ -32,6 +32,9 @@ CHECKS = {
  'C14': dict(engine='E2-snap', technique='fork-snapshot depth-first search over histories of public-API operations chosen to collide in memo tables; differential against the fresh-process answer',
    text='Every history of length <= 2 (3 thorough, first steps over a core) over 49 (97 thorough) operations - checks, subhint queries, TypeHint comparisons, decorations over equal-but-distinct hints, hash-equal literals, classes and TypeVars with identical repr, unhashable hints, forward references resolved in two scopes or failing first, same-named class redefinitions, id() reuse after gc, clear_caches - is executed by forking the real process at every node; the last operation must observe exactly what it observes in a fresh process.',
    note='Observations are address-free; equal hints are treated as interchangeable.', ref='5/C14'),
+ 'C06': dict(engine='E2-snap', technique='explicit-state exploration of all operation histories up to a depth on the real registry in lock step with a declarative model, with snapshot/restore validated against forked processes',
+   text='All 31k histories of length <= 3 (4 over a core, thorough) over 36 beartype.claw operations (beartype_all / package(s) / this_package / beartyping enter+exit; equal, different, skipping and invalid configurations; equal, ancestor, descendant, sibling, excluded and invalid names) are replayed on the real registry; after the last step the outcome class, 13 package lookups, path-hook presence, "raising operation leaves the registry unchanged" and "exit restores the pre-enter state" are compared with the model.',
+   note='The registry is reset between histories by a harness snapshot of claw_state + sys.path_hooks; that discipline is cross-checked against forked processes on every depth-1 and sampled depth-2 history each run.', ref='5/C06'),
 }
 NOT_YET = {}
 for i in range(1, 21):
